@@ -7,7 +7,7 @@
      sync <w> call <t> <op> [arg]                                            GSync w t (ECall op)
      sync <w> ret <t> <v>                                                    GSync w t (ERet v)
      sync <w> announce <t>                                                   GSync w t EAnnounce   (uncond)
-     sync <w> tick <t> <m|c> <label> [<val|-> <obs>]                         GSync w t ETick / ECbTick, after comparing the
+     sync <w> tick <t> <m|c> <label> [<val|-> <obs>]   (Sync obs: M.. | Q.. | F <status> <state> <k> <mq..> <k> <c0..> <k> <c1..>)                         GSync w t ETick / ECbTick, after comparing the
                                                                              label (Sync: also hook value and the Sync words)
      move <w> <CreateCF c|CreatePF c|PopOwn|Steal v|TakeJoiner j|SaveCtx|FinishCtx|PutBase|PushTop x|EndCb|RunHand>   GMach w m
      autopop <w>            GMach w PopOwn if the hand is empty and the own queue is not
@@ -49,6 +49,7 @@ let sync_inst nw nt nc =
     | ["lock"] -> Lock | ["trylock"] -> TryLock | ["timedlock"] -> TimedLock | ["unlock"] -> Unlock
     | ["cwait"; c] -> CondWait (ni (int_of_string c)) | ["signal"; c] -> Signal (ni (int_of_string c))
     | ["bcast"; c] -> Broadcast (ni (int_of_string c))
+    | ["fewl"; s] -> FeWL (zs s) | ["fems"; s] -> FeMS (zs s)
     | l -> failwith ("bad op " ^ Stdlib.String.concat " " l) in
   let qstr l = "[" ^ Stdlib.String.concat "," (Stdlib.List.map (fun n -> string_of_int (ino n)) l) ^ "]" in
   let rec take k l = if k = 0 then ([], l) else match l with x :: r -> let (a, b) = take (k - 1) r in (x :: a, b) | [] -> failwith "short obs" in
@@ -64,6 +65,13 @@ let sync_inst nw nt nc =
         let (q, _) = getq (int_of_string k) rest in
         let mqs = qstr (nthq s (int_of_string c)) in
         if q = mqs then None else Some (Printf.sprintf "cond %s queue differs: impl %s model %s" c q mqs)
+    | "F" :: fs :: stt :: k :: rest ->
+        let (q, rest) = getq (int_of_string k) rest in
+        let (c0, rest) = (match rest with k0 :: r -> getq (int_of_string k0) r | [] -> failwith "short F") in
+        let (c1, _) = (match rest with k1 :: r -> getq (int_of_string k1) r | [] -> failwith "short F") in
+        let m = Printf.sprintf "status=%s state=%s q=%s c0=%s c1=%s" (sz (festat s)) (sz (mword s)) (qstr (mq s)) (qstr (nthq s 0)) (qstr (nthq s 1)) in
+        let i = Printf.sprintf "status=%s state=%s q=%s c0=%s c1=%s" fs stt q c0 c1 in
+        if i = m then None else Some ("felock words differ: impl " ^ i ^ " model " ^ m)
     | "-" :: _ | [] -> None
     | _ -> Some "unparsable obs" in
   let step w t e desc = match Instances.SyncI.pstep !st (GSync (ni w, ni t, e)) with
